@@ -56,23 +56,30 @@ func guardedByAny(c *core.Ctx, fn *ssa.Function, at ssa.Instruction, facts ...st
 	return !found, w
 }
 
-// cmpAtomOf: the canonical atom of the If that consumes comparison call cl (nil if none).
+// cmpAtomOf: the canonical atom of the comparison (`cl <op> k`) that consumes the three-way comparison
+// call cl, wherever its boolean ends up (directly in an If or bound to a local first), and the If it
+// decides when there is one.
 func cmpAtomOf(c *core.Ctx, fn *ssa.Function, cl *ssa.Call) (string, *ssa.If) {
 	var res string
 	var ifi *ssa.If
+	var cmp *ssa.BinOp
+	for _, ref := range *cl.Referrers() {
+		if b, ok := ref.(*ssa.BinOp); ok && (core.Strip(b.X) == ssa.Value(cl) || core.Strip(b.Y) == ssa.Value(cl)) {
+			cmp = b
+		}
+	}
+	if cmp == nil {
+		return "", nil
+	}
+	res, _ = c.P.CanonAtom(cmp)
 	core.Instrs(fn, func(in ssa.Instruction) {
 		i, ok := in.(*ssa.If)
 		if !ok || ifi != nil {
 			return
 		}
 		v, _ := core.CondOf(i)
-		b, ok := core.Strip(v).(*ssa.BinOp)
-		if !ok {
-			return
-		}
-		if core.Strip(b.X) == ssa.Value(cl) || core.Strip(b.Y) == ssa.Value(cl) {
-			at, _ := c.P.CanonAtom(v)
-			res, ifi = at, i
+		if core.Strip(v) == ssa.Value(cmp) {
+			ifi = i
 		}
 	})
 	return res, ifi
@@ -498,9 +505,9 @@ func c15Round2(c *core.Ctx) {
 					return
 				}
 				n++
-				at, ifi := cmpAtomOf(c, fn, cl)
-				if ifi == nil {
-					a.viol(fname(fn)+" keyspace bound comparison", in, "comparison does not decide a branch")
+				at, _ := cmpAtomOf(c, fn, cl)
+				if at == "" {
+					a.viol(fname(fn)+" keyspace bound comparison", in, "the three-way comparison is not compared with a constant")
 					return
 				}
 				a.check(at == r.atom, fname(fn)+" compares with "+r.a1+" at the right strictness", in, at, fmt.Sprintf("%s: the comparison is `%s`, expected `%s`", r.why, at, r.atom))
@@ -564,20 +571,6 @@ func c19Round2(c *core.Ctx) {
 		a := rule(c, "C19.R4")
 		fn := a.fn(pkgCodec, "", "decodeBytes")
 		if fn != nil {
-			// the pad byte: a φ of the constants 0 and 255
-			isPad := func(v ssa.Value) bool {
-				ph, ok := core.Strip(v).(*ssa.Phi)
-				if !ok || len(ph.Edges) != 2 {
-					return false
-				}
-				vals := map[int64]bool{}
-				for _, e := range ph.Edges {
-					if cst, ok := e.(*ssa.Const); ok && cst.Value != nil {
-						vals[cst.Int64()] = true
-					}
-				}
-				return vals[0] && vals[255]
-			}
 			// the data part: append(buf, group[:H]...)
 			var dataHigh, group ssa.Value
 			core.Instrs(fn, func(in ssa.Instruction) {
@@ -592,113 +585,180 @@ func c19Round2(c *core.Ctx) {
 					dataHigh, group = sl.High, sl.X
 				}
 			})
-			n := 0
-			core.Instrs(fn, func(in ssa.Instruction) {
-				b, ok := in.(*ssa.BinOp)
-				if !ok || (b.Op != token.NEQ && b.Op != token.EQL) {
-					return
+			// the pad byte: a φ of the constants 0 and 255
+			isPad := func(v ssa.Value) bool {
+				ph, ok := core.Strip(v).(*ssa.Phi)
+				if !ok || len(ph.Edges) != 2 {
+					return false
 				}
-				var elem ssa.Value
-				switch {
-				case isPad(b.Y):
-					elem = b.X
-				case isPad(b.X):
-					elem = b.Y
-				default:
-					return
-				}
-				ld, ok := core.Strip(elem).(*ssa.UnOp)
-				if !ok {
-					return
-				}
-				ia, ok := ld.X.(*ssa.IndexAddr)
-				if !ok {
-					return
-				}
-				n++
-				if dataHigh == nil {
-					a.viol(fname(fn)+" padding check starts where the data ends", in, "the data part of a group (append(buf, group[:n]...)) was not found")
-					return
-				}
-				// the index variable: φ(init, idx+1) possibly +1 (range loops start at -1)
-				idx := core.Strip(ia.Index)
-				plus1 := false
-				if bo, ok := idx.(*ssa.BinOp); ok && bo.Op == token.ADD {
-					if cst, ok := bo.Y.(*ssa.Const); ok && cst.Int64() == 1 {
-						idx, plus1 = core.Strip(bo.X), true
-					}
-				}
-				ph, ok := idx.(*ssa.Phi)
-				if !ok {
-					a.viol(fname(fn)+" padding check is a loop over the padding", in, "the compared byte is not indexed by a loop variable")
-					return
-				}
-				var init ssa.Value
+				vals := map[int64]bool{}
 				for _, e := range ph.Edges {
-					if bo, ok := core.Strip(e).(*ssa.BinOp); ok && bo.Op == token.ADD && core.Strip(bo.X) == ssa.Value(ph) {
-						continue
+					if cst, ok := e.(*ssa.Const); ok && cst.Value != nil {
+						vals[cst.Int64()] = true
 					}
-					init = e
 				}
-				// lower end of the checked range, relative to `group`
-				base := core.Strip(ia.X)
-				var low ssa.Value // nil = 0
-				fullHigh := false
-				if sl, ok := base.(*ssa.Slice); ok && core.Strip(sl.X) == core.Strip(group) {
-					low = sl.Low
-					fullHigh = sl.High == nil
-					// range loop: idx runs -1.. and is used +1 → starts at 0 of the sub-slice
-					if cst, ok := core.Strip(init).(*ssa.Const); !ok || !((plus1 && cst.Int64() == -1) || (!plus1 && cst.Int64() == 0)) {
-						a.viol(fname(fn)+" padding check starts where the data ends", in, "the loop over the padding does not start at its first byte")
+				return vals[0] && vals[255]
+			}
+			// padLoop: in function f, the loop that compares bytes with the pad byte: which byte string it walks
+			// (root), from where (low; nil = its first byte) and whether it runs to the end of that string
+			type loopInfo struct {
+				at       ssa.Instruction
+				root     ssa.Value
+				low      ssa.Value
+				toEnd    bool
+				problems []string
+			}
+			padLoop := func(f *ssa.Function, groupOf func(ssa.Value) bool, groupLen int64) []loopInfo {
+				var out []loopInfo
+				core.Instrs(f, func(in ssa.Instruction) {
+					b, ok := in.(*ssa.BinOp)
+					if !ok || (b.Op != token.NEQ && b.Op != token.EQL) {
 						return
 					}
-				} else if base == core.Strip(group) {
-					low = init
-					if plus1 {
-						a.viol(fname(fn)+" padding check starts where the data ends", in, "unexpected index form")
+					var elem ssa.Value
+					switch {
+					case isPad(b.Y):
+						elem = b.X
+					case isPad(b.X):
+						elem = b.Y
+					default:
 						return
 					}
-				} else {
-					a.viol(fname(fn)+" padding check covers the group", in, "the checked bytes are not a part of the current group")
-					return
-				}
-				startsAtData := low != nil && (core.Strip(low) == core.Strip(dataHigh) || sameExpr(low, dataHigh, 0) || sameConv(low, dataHigh))
-				a.check(startsAtData, fname(fn)+" padding check starts where the data ends", in, "", "the padding check does not begin at the first byte after the data part: some byte of the group is neither data nor checked padding")
-				// upper end: the loop bound is the length of the checked slice (to the end of the group) or the group size
-				boundOK := false
-				core.Instrs(fn, func(x ssa.Instruction) {
-					cmp, ok := x.(*ssa.BinOp)
-					if !ok || cmp.Op != token.LSS {
+					ld, ok := core.Strip(elem).(*ssa.UnOp)
+					if !ok {
 						return
 					}
-					lx := core.Strip(cmp.X)
-					if lx != ssa.Value(ph) {
-						if bo, ok := lx.(*ssa.BinOp); !ok || core.Strip(bo.X) != ssa.Value(ph) {
+					ia, ok := ld.X.(*ssa.IndexAddr)
+					if !ok {
+						return
+					}
+					li := loopInfo{at: in}
+					idx := core.Strip(ia.Index)
+					plus1 := false
+					if bo, ok := idx.(*ssa.BinOp); ok && bo.Op == token.ADD {
+						if cst, ok := bo.Y.(*ssa.Const); ok && cst.Int64() == 1 {
+							idx, plus1 = core.Strip(bo.X), true
+						}
+					}
+					ph, ok := idx.(*ssa.Phi)
+					if !ok {
+						li.problems = append(li.problems, "the compared byte is not indexed by a loop variable")
+						out = append(out, li)
+						return
+					}
+					var init ssa.Value
+					for _, e := range ph.Edges {
+						if bo, ok := core.Strip(e).(*ssa.BinOp); ok && bo.Op == token.ADD && core.Strip(bo.X) == ssa.Value(ph) {
+							continue
+						}
+						init = e
+					}
+					startsAtZero := false
+					if cst, ok := core.Strip(init).(*ssa.Const); ok && ((plus1 && cst.Int64() == -1) || (!plus1 && cst.Int64() == 0)) {
+						startsAtZero = true
+					}
+					base := core.Strip(ia.X)
+					li.root = base
+					if sl, ok := base.(*ssa.Slice); ok {
+						li.root = core.Strip(sl.X)
+						li.low = sl.Low
+						if !startsAtZero {
+							li.problems = append(li.problems, "the loop over the padding does not start at its first byte")
+						}
+						if sl.High != nil {
+							li.problems = append(li.problems, "the checked slice is cut short")
+						}
+					} else if startsAtZero {
+						li.low = nil
+					} else if !plus1 {
+						li.low = init
+					} else {
+						li.problems = append(li.problems, "unexpected index form")
+					}
+					// loop bound
+					core.Instrs(f, func(x ssa.Instruction) {
+						cmp, ok := x.(*ssa.BinOp)
+						if !ok || cmp.Op != token.LSS {
 							return
 						}
-					}
-					switch y := core.Strip(cmp.Y).(type) {
-					case *ssa.Call:
-						if bi, ok := y.Call.Value.(*ssa.Builtin); ok && bi.Name() == "len" {
-							arg := core.Strip(y.Call.Args[0])
-							if arg == base && (fullHigh || base == core.Strip(group)) {
-								boundOK = true
-							}
-							if arg == core.Strip(group) && base == core.Strip(group) {
-								boundOK = true
+						lx := core.Strip(cmp.X)
+						if lx != ssa.Value(ph) {
+							if bo, ok := lx.(*ssa.BinOp); !ok || core.Strip(bo.X) != ssa.Value(ph) {
+								return
 							}
 						}
-					case *ssa.Const:
-						// explicit bound: must be the group's length (its slicing bound)
-						if gs, ok := core.Strip(group).(*ssa.Slice); ok && gs.High != nil {
-							if gc, ok := gs.High.(*ssa.Const); ok && base == core.Strip(group) && gc.Int64() == y.Int64() {
-								boundOK = true
+						switch y := core.Strip(cmp.Y).(type) {
+						case *ssa.Call:
+							if bi, ok := y.Call.Value.(*ssa.Builtin); ok && bi.Name() == "len" && core.Strip(y.Call.Args[0]) == base {
+								li.toEnd = true
+							}
+						case *ssa.Const:
+							if groupOf != nil && groupOf(base) && y.Int64() == groupLen {
+								li.toEnd = true
 							}
 						}
-					}
+					})
+					out = append(out, li)
 				})
-				a.check(boundOK, fname(fn)+" padding check runs to the end of the group", in, "", "the loop over the padding stops before the end of the group: a malformed last pad byte is accepted and decodes to a valid-looking value")
-			})
+				return out
+			}
+			isGroup := func(v ssa.Value) bool { return group != nil && core.Strip(v) == core.Strip(group) }
+			var glen int64 = -1
+			if group != nil {
+				if gs, ok := core.Strip(group).(*ssa.Slice); ok && gs.High != nil {
+					if gc, ok := gs.High.(*ssa.Const); ok {
+						glen = gc.Int64()
+					}
+				}
+			}
+			sameAsDataEnd := func(low ssa.Value) bool {
+				return low != nil && dataHigh != nil && (core.Strip(low) == core.Strip(dataHigh) || sameExpr(low, dataHigh, 0) || sameConv(low, dataHigh))
+			}
+			n := 0
+			report := func(li loopInfo, where string, startsAtData bool) {
+				n++
+				for _, pr := range li.problems {
+					a.viol(fname(fn)+" padding check is a loop over the padding", li.at, pr+where)
+				}
+				a.check(startsAtData, fname(fn)+" padding check starts where the data ends", li.at, "", "the padding check does not begin at the first byte after the data part: some byte of the group is neither data nor checked padding"+where)
+				a.check(li.toEnd, fname(fn)+" padding check runs to the end of the group", li.at, "", "the loop over the padding stops before the end of the group: a malformed last pad byte is accepted and decodes to a valid-looking value"+where)
+			}
+			if dataHigh == nil {
+				a.violAt(fname(fn)+" data part of a group", a.fnPos(fn), "append(buf, group[:n]...) not found")
+			} else {
+				for _, li := range padLoop(fn, isGroup, glen) {
+					if !isGroup(li.root) {
+						li.problems = append(li.problems, "the checked bytes are not a part of the current group")
+					}
+					report(li, "", sameAsDataEnd(li.low))
+				}
+				// the same loop inside a private helper that is handed group[dataEnd:]
+				for _, ci := range core.FindCalls(fn, func(cc *ssa.CallCommon) bool {
+					g := cc.StaticCallee()
+					return g != nil && g.Pkg == fn.Pkg && g.Object() != nil && !g.Object().Exported() && len(g.Blocks) > 0
+				}) {
+					g := ci.Common().StaticCallee()
+					// inside the helper the pad byte may be a φ as well, or a parameter: accept a parameter that receives a pad φ
+					for _, li := range padLoop(g, nil, -1) {
+						par, ok := li.root.(*ssa.Parameter)
+						if !ok {
+							continue
+						}
+						k := -1
+						for i, pp := range g.Params {
+							if pp == par {
+								k = i
+							}
+						}
+						if k < 0 || k >= len(ci.Common().Args) {
+							continue
+						}
+						arg, ok := core.Strip(ci.Common().Args[k]).(*ssa.Slice)
+						startsAtData := ok && isGroup(arg.X) && arg.High == nil && sameAsDataEnd(arg.Low) && li.low == nil
+						report(li, " (in helper "+fname(g)+")", startsAtData)
+					}
+				}
+			}
 			a.checkAt(n == 1, fname(fn)+" checks the padding", a.fnPos(fn), "", "padding comparison not found")
 		}
 	}
@@ -1220,4 +1280,77 @@ func c18Round2(c *core.Ctx) {
 			}
 		}
 	}
+}
+
+// ---- C10 round 2 ------------------------------------------------------------------------------------------------
+func init() {
+	extend("C10", "(R7) for a request of every read command whose store type is not TiDB, validateReadTS consults the validator on every path (walked per command under that valuation); (R8) the store's resolve-state CAS loop retries only while the observed state is the expected one (otherwise it returns): it cannot spin on a state it will never see; imported: a region-error response of the matching type carries the region error (C15.R1) — otherwise a send that found no replica fabricates a success.", c10Round2)
+}
+
+func c10Round2(c *core.Ctx) {
+	c.Import(Registry["C15"].Run, "C15", []string{"R1"}, "viaC15")
+	p := c.P
+	{
+		a := rule(c, "C10.R7")
+		validate := a.fn(pkgLocate, "RegionRequestSender", "validateReadTS")
+		isReadReq := a.fn(pkgLocate, "", "isReadReq")
+		if validate != nil && isReadReq != nil {
+			tidb := constInt(c, core.ModPath+"/tikvrpc", "TiDB")
+			readSet := constsComparedWithParam(isReadReq, 0)
+			isValidateCall := func(in ssa.Instruction) bool {
+				ci, ok := in.(ssa.CallInstruction)
+				return ok && calleeName(ci) == "ValidateReadTS"
+			}
+			n := 0
+			for cmd := range readSet {
+				cmd := cmd
+				n++
+				q := &core.Q{Fn: validate, NoPass: isValidateCall, NoEdge: func(e core.Edge) bool {
+					at := p.EdgeAtom(e)
+					// valuation: StoreTp != TiDB, Type == cmd
+					if strings.Contains(at, "fld(Request.StoreTp,") && strings.Contains(at, fmt.Sprintf("(const(%d) == ", tidb)) {
+						return strings.HasPrefix(at, "T:")
+					}
+					if strings.Contains(at, "fld(Request.Type,") && strings.Contains(at, " == ") {
+						isThis := strings.Contains(at, fmt.Sprintf("(const(%d) == ", cmd))
+						if isThis {
+							return strings.HasPrefix(at, "F:")
+						}
+						return strings.HasPrefix(at, "T:")
+					}
+					return false
+				}}
+				found, w, hit := q.Reach(nil, core.IsReturn)
+				if found {
+					a.viol(fmt.Sprintf("%s validates CmdType(%d) for every non-TiDB store", fname(validate), cmd), hit, "a read of this command addressed to a store that is not TiDB (TiKV or TiFlash) can return from validateReadTS without consulting the validator: a read with a timestamp from the future is sent although validation is enabled: "+a.w(w))
+				} else {
+					a.okAt(fmt.Sprintf("%s validates CmdType(%d) for every non-TiDB store", fname(validate), cmd), a.fnPos(validate), "")
+				}
+			}
+			a.checkAt(n >= 4, "read commands walked", a.fnPos(validate), fmt.Sprint(n), "read command set not found")
+		}
+	}
+	{
+		a := rule(c, "C10.R8")
+		fn := a.fn(pkgLocate, "Store", "changeResolveStateTo")
+		if fn != nil {
+			n := 0
+			for _, ci := range core.FindCalls(fn, func(cc *ssa.CallCommon) bool {
+				f := cc.StaticCallee()
+				return f != nil && strings.HasPrefix(f.Name(), "CompareAndSwap")
+			}) {
+				n++
+				g, w := guardedByAny(c, fn, ci,
+					"T:(call((*internal/locate.Store).getResolveState)#0[recv] == param#0)", "T:(param#0 == call((*internal/locate.Store).getResolveState)#0[recv])")
+				a.check(g, fname(fn)+" retries the CAS only from the expected state", ci, "", "the compare-and-swap (from → to) is attempted, and the loop repeated, although the observed state is neither `from` nor `to`: the CAS can never succeed and the loop never ends (a send that meets a tombstone store hangs): "+a.w(w))
+			}
+			a.checkAt(n == 1, fname(fn)+" CAS site", a.fnPos(fn), "", "CAS not found")
+		}
+	}
+}
+
+func init() {
+	extend("C14", "Imported: resolve requests carry exactly the status that was checked (C02.R2).", func(c *core.Ctx) {
+		c.Import(Registry["C02"].Run, "C02", []string{"R2"}, "viaC02")
+	})
 }
